@@ -46,7 +46,9 @@ OUTSIDE = ('LMTP client against the SMTP edge (the edge does not speak LHLO); '
            'callable (assumed to join repeated headers with ", " as '
            'gevent.pywsgi does); header block beyond the menu (C20)')
 STUBS = ['PipeSocket pair', 'recording queue behind the edge', 'PtrLookup '
-         '-> inert', 'virtual-time loop']
+         '-> inert', 'virtual-time loop', 'WSGI gateway contract for response '
+         'headers (latin-1, no CR/LF; otherwise a bare 500), as gevent.pywsgi '
+         'enforces it']
 ASSUMPTIONS = ['validity predicate for addresses: dot-atom without dots or '
                'quoted-string local part, fixed domain']
 CELL_BUDGET_S = {'quick': 240, 'thorough': 2400}
@@ -414,8 +416,9 @@ def run_httpreply(cell):
     code = api.sstr('c0', 1, 0x32, 0x35) + api.sstr('c12', 2, 0x30, 0x39)
     api.assume(code[0:1] != '3')
     msg = ['2.0.0 fine', 'try again later', '5.1.1 no such user; really',
-           'weird = "quoted" text', 'line one\r\nline two'][
-        api.choice('msg', 5)]
+           'weird = "quoted" text', 'line one\r\nline two',
+           '5.1.1 Utilisateur inconnu \u2603', 'caf\xe9 ferm\xe9'][
+        api.choice('msg', 7)]
     # replies that come from a relay behind the edge (ProxyQueue) carry the
     # command they answer, as bytes
     cmd = [None, 'DATA', b'RCPT', b'[SEND_DATA]'][api.choice('command', 4)]
@@ -432,6 +435,15 @@ def run_httpreply(cell):
     client = HttpRelayClient(relay)
     http_res = FakeHTTPResponse(int(res.status[:3]), res.status[4:],
                                 res.headers)
+    # the WSGI gateway's side of PEP 3333 (as gevent.pywsgi enforces it): a
+    # header value is a latin-1 str without CR / LF, or the request ends as
+    # a bare 500
+    for name, value in res.headers:
+        # (the only symbolic characters of the value are the code's digits)
+        chars = [x for x in value._e if isinstance(x, int)] \
+            if api.is_sseq(value) else [ord(c) for c in value]
+        if not all(c < 256 and c not in (10, 13) for c in chars):
+            http_res = FakeHTTPResponse(500, 'Internal Server Error', [])
     info = dict(msg=msg)
     back = client._parse_smtp_reply_header(http_res)
     if api.prove(back is not None, 'reply-header-not-parsed', **info):
